@@ -142,6 +142,23 @@ def cancel_work(job):
     return rec
 
 
+def resetrace_work(job):
+    flavour, seed, engine, outdir = job
+    xml = CANCEL_CHART % {'dm': 'lua', 'delayed': ''}
+    f = os.path.join(outdir, 'rr%d.scxml' % seed); open(f, 'w').write(xml)
+    r = thr.run_with_stacks(flavour, 'resetrace', f, timeout=120, seed=seed, engine=engine, producers=2 + seed % 3, events=3000, resets=300, **{'yield': (0, 300)[seed % 2]})
+    rec = {'job': list(job[:3]), 'bad': [], 'resets': 0}
+    if r['timeout']:
+        rec['bad'].append(('reset-vs-receive:hang', {'stacks': [s[-4000:] for s in r.get('stacks', [])]})); return rec
+    if r['rc'] != 0: rec['bad'].append(('reset-vs-receive:crash:' + (common.sanitizer_summary(r['err']) or 'rc=%s' % r['rc'])[:100], {'stderr': r['err'][-3000:]})); return rec
+    recs = thr.records(r['out'])
+    rec['resets'] = sum(1 for x in recs if x[3] == 'RESET' and x[4] == 'end')
+    if flavour == 'tsan':
+        att, un = thr.tsan_reports(r['err'], ANCHORS)
+        for sig, c in att.items(): rec['bad'].append(('tsan:' + sig[:150], {'count': c, 'report': r['err'][:3500]}))
+    return rec
+
+
 def churn_work(job):
     flavour, seed, count, script, outdir = job
     xml = CANCEL_CHART % {'dm': 'lua', 'delayed': '<onentry><send event="later" delay="2s"/></onentry>' if seed % 2 else ''}
@@ -277,6 +294,13 @@ def main(tier, replay):
     chk.add('delivery_windows_reached', dict(wreached))
     for name in ('reset-in-window', 'destroy-in-window'):
         if wreached[name] == 0: chk.inconc('forced window of script %s was never reached' % name)
+    # (3c) reset() on the stepping thread while producers call receive()
+    rr = 0
+    for rec in common.pmap(resetrace_work, [(('tsan', 'asan')[i % 2], base + 700000 + i, ('large', 'fast', 'default')[i % 3], outdir) for i in range(8 if q else 200)], workers=min(8, common.NPROC)):
+        chk.count(); rr += rec['resets']
+        if not rec['bad']: chk.nontrivial('resetrace:%s' % rec['job'])
+        for key, det in rec['bad']: chk.report(key, {'job': rec['job'], 'detail': det}, 'reset race %s: %s' % (rec['job'], key))
+    chk.add('resets_racing_with_receive', rr)
     # (4) reset equivalence
     n4 = 200 if q else 6000; cmp_ = 0
     for out in common.pmap(reset_work, [(dbin, list(range(base + 500000 + i, base + 500000 + min(i + 20, n4)))) for i in range(0, n4, 20)]):
